@@ -132,10 +132,37 @@ def gen_other(rng, sid):
             type_names()[typ]: {"generationDeltaTime": sid % 65536, "payload": {"value": rng.randrange(0, 10), "label": rng.choice(("a", "ab", "b"))}}}
 
 
+def gen_kinds(rng, sid, typ=None):
+    """audit round: a message of any of the 21 types (or an untyped one) whose attributes hold the value kinds the
+    CAM / DENM / VAM shapes above never hold - null, the empty string, booleans and negative numbers at dictionary
+    level, empty lists and dictionaries - and whose header may come after the body"""
+    from .ldm_common import type_names
+    if typ is None:
+        typ = rng.choice(tuple(range(0, 22)))
+    name = type_names().get(typ, "unknownMessage")
+    body = {"generationDeltaTime": rng.choice((0, sid % 65536)),
+            "note": rng.choice((None, None, "", "", "abc", "b", "None")),
+            "flag": rng.choice((True, False, False, None, 0, 1)),
+            "delta": rng.choice((-5, -1, 0, 0, 3)),
+            "items": rng.choice(([], [], [1, 2], ["a", ""], [None], [0])),
+            "box": rng.choice(({}, {}, {"inner": rng.choice((0, "", None, -2))})),
+            "payload": {"value": rng.randrange(-2, 3), "label": rng.choice(("", "a", "ab"))}}
+    for k in rng.sample(sorted(body), rng.randrange(0, 3)):
+        del body[k]
+    header = {"protocolVersion": 2, "messageId": typ, "stationId": sid}
+    if rng.random() < 0.3:
+        return {name: body, "header": header}
+    return {"header": header, name: body}
+
+
 MSG_GENS = {2: gen_cam, 1: gen_denm, 16: gen_vam}
 
 
 def gen_message(rng, typ, sid):
+    if typ == "kinds":
+        return gen_kinds(rng, sid)
+    if isinstance(typ, tuple):           # ("kinds", type id): an update that keeps the type of the stored message
+        return gen_kinds(rng, sid, typ[1])
     return MSG_GENS.get(typ, gen_other)(rng, sid)
 
 
@@ -145,14 +172,24 @@ def gen_message(rng, typ, sid):
 CFG = {"lat": 0, "lon": 0, "alt": 0, "rd": 4}          # objects are stored far away from the LDM's own position
 
 
-def gen_history(rng, n_add):
-    """adds by registered providers, some updates (same type) and deletes; everything far from the
-    LDM position and valid for a long time, so that maintenance (C12) does not interfere"""
+SHAPES = ({}, {}, {}, {"rect": [20, 30, 900]}, {"ell": [7, 5, {"direction": 7200}]}, {"circle": False, "rect": [5, 5, {"direction": 0}]},
+          {"circle": False})
+
+
+def gen_history(rng, n_add, style="plain"):
+    """adds by registered providers, some updates (same type) and deletes; everything far from the LDM position.
+    style "plain": valid for a long time, so that maintenance (C12) does not interfere.
+    style "audit": also messages of every type with null / empty / boolean / negative values and the header last,
+    locations with rectangle / ellipse / no circle, short validity periods with clock advances and explicit maintenance
+    (objects lapse and are collected on both back-ends), updates and deletes of identifiers that were never handed out"""
+    audit = style == "audit"
     hist = []
     live = []
     sid = 1000
     for k in range(n_add):
         typ = rng.choice((2, 2, 2, 1, 1, 16, 16, 0x3))
+        if audit and rng.random() < 0.45:
+            typ = "kinds"
         sid += rng.choice((1, 1, 2, 7))
         msg = gen_message(rng, typ, sid if rng.random() < 0.9 else 1001)
         hist.append({"op": "add", "k": k, "aid": rng.choice((1, 2, 16)), "dts": rng.choice((0, -1, -500, 250)),
@@ -161,6 +198,10 @@ def gen_history(rng, n_add):
                      "extra": {"smc": rng.choice((0, 7)), "smo": rng.choice((0, 900)), "smic": rng.choice((1, 9)), "ac": rng.choice((0, 3)),
                                "radius": rng.choice((0, 100)), "rd": rng.randrange(8), "td": rng.randrange(4)},
                      "val": rng.choice((600, 1000, 100000)), "msg": msg})
+        if audit:
+            hist[-1]["extra"].update(rng.choice(SHAPES))
+            if rng.random() < 0.35:
+                hist[-1]["val"] = rng.choice((0, 1, 2, 3, 5))
         live.append(k)
         x = rng.random()
         if x < 0.12 and live:
@@ -168,49 +209,75 @@ def gen_history(rng, n_add):
             old = next(h for h in hist if h["op"] == "add" and h["k"] == t)
             cur_typ = type_of_message(old["msg"])
             sid += 1
-            hist.append({"op": "update", "k": t, "aid": 2, "msg": gen_message(rng, cur_typ if rng.random() < 0.8 else 1, sid)})
+            new_typ = cur_typ if rng.random() < 0.8 else 1
+            if audit and (cur_typ not in MSG_GENS or rng.random() < 0.3):
+                new_typ = ("kinds", new_typ)
+            hist.append({"op": "update", "k": t, "aid": 2, "msg": gen_message(rng, new_typ, sid)})
         elif x < 0.22 and live:
             t = rng.choice(live)
             live.remove(t)
             hist.append({"op": "delete", "k": t, "aid": 2})
         elif x < 0.3:
             hist.append({"op": "advance", "ms": rng.choice((1, 400, 1000, 2500))})
+        elif audit and x < 0.42:
+            hist.append({"op": "advance", "ms": rng.choice((999, 1000, 1001, 2000, 3000, 6000, 601000))})
+        elif audit and x < 0.5:
+            hist.append({"op": "maintain"})
+        elif audit and x < 0.54:
+            sid += 1
+            hist.append({"op": rng.choice(("update", "delete")), "k": 900 + k, "aid": 2, "msg": gen_message(rng, 2, sid)})
     return hist
+
+
+class HistoryRunner:
+    """a Factory-built LDM with one back-end on which a history is executed piece by piece (audit round: requests
+    are also made between the operations of a history, not only after the last one)"""
+
+    def __init__(self, backend, t0):
+        from flexstack.facilities.local_dynamic_map.ldm_classes import (
+            RegisterDataProviderReq, RegisterDataConsumerReq, TimeValidity, GeometricArea, AccessPermission)
+        self.lut = LdmUnderTest(CFG, backend, t0)
+        for aid in (1, 2, 16):
+            self.lut.if3.register_data_provider(RegisterDataProviderReq(aid, (AccessPermission(aid),), TimeValidity(0)))
+        self.lut.if4.register_data_consumer(RegisterDataConsumerReq(2, (AccessPermission.CAM,), GeometricArea(None, None, None)))
+        self.ids = {}
+        self.resp = []
+
+    def run(self, hist):
+        from flexstack.facilities.local_dynamic_map.ldm_classes import (
+            AddDataProviderReq, UpdateDataProviderReq, DeleteDataProviderReq, TimestampIts, TimeValidity)
+        lut, ids, resp = self.lut, self.ids, self.resp
+        for h in hist:
+            try:
+                if h["op"] == "add":
+                    r = lut.if3.add_provider_data(AddDataProviderReq(h["aid"], TimestampIts(its_ms(VCLOCK.ms) + h["dts"]),
+                                                                     make_location(h["lat"], h["lon"], h["alt"], h["extra"]),
+                                                                     _copy(h["msg"]), TimeValidity(h["val"])))
+                    ids[h["k"]] = r.data_object_id
+                    resp.append("added" if r.data_object_id is not None and r.data_object_id >= 0 else "refused")
+                elif h["op"] == "update":
+                    r = lut.if3.update_provider_data(UpdateDataProviderReq(h["aid"], ids.get(h["k"], -1), TimestampIts(its_ms(VCLOCK.ms)),
+                                                                           make_location(0, 0, 0, dict(smc=0, smo=0, smic=0, ac=0, radius=0, rd=0, td=0)),
+                                                                           _copy(h["msg"]), TimeValidity(0)))
+                    resp.append(int(r.result))
+                elif h["op"] == "delete":
+                    r = lut.if3.delete_provider_data(DeleteDataProviderReq(h["aid"], ids.get(h["k"], -1), TimestampIts(its_ms(VCLOCK.ms))))
+                    resp.append(int(r.result))
+                elif h["op"] == "advance":
+                    VCLOCK.advance(h["ms"])
+                    resp.append(None)
+                elif h["op"] == "maintain":
+                    lut.ldm.ldm_maintenance.collect_trash()
+                    resp.append(None)
+            except Exception as e:
+                resp.append("EXC " + type(e).__name__)
+        return self
 
 
 def run_history(backend, hist, t0):
     """returns (LdmUnderTest, responses, ids of the k-th add)"""
-    from flexstack.facilities.local_dynamic_map.ldm_classes import (
-        RegisterDataProviderReq, RegisterDataConsumerReq, AddDataProviderReq, UpdateDataProviderReq,
-        DeleteDataProviderReq, TimestampIts, TimeValidity, GeometricArea, AccessPermission)
-    lut = LdmUnderTest(CFG, backend, t0)
-    for aid in (1, 2, 16):
-        lut.if3.register_data_provider(RegisterDataProviderReq(aid, (AccessPermission(aid),), TimeValidity(0)))
-    lut.if4.register_data_consumer(RegisterDataConsumerReq(2, (AccessPermission.CAM,), GeometricArea(None, None, None)))
-    ids = {}
-    resp = []
-    for h in hist:
-        try:
-            if h["op"] == "add":
-                r = lut.if3.add_provider_data(AddDataProviderReq(h["aid"], TimestampIts(its_ms(VCLOCK.ms) + h["dts"]),
-                                                                 make_location(h["lat"], h["lon"], h["alt"], h["extra"]),
-                                                                 _copy(h["msg"]), TimeValidity(h["val"])))
-                ids[h["k"]] = r.data_object_id
-                resp.append("added" if r.data_object_id is not None and r.data_object_id >= 0 else "refused")
-            elif h["op"] == "update":
-                r = lut.if3.update_provider_data(UpdateDataProviderReq(h["aid"], ids.get(h["k"], -1), TimestampIts(its_ms(VCLOCK.ms)),
-                                                                       make_location(0, 0, 0, dict(smc=0, smo=0, smic=0, ac=0, radius=0, rd=0, td=0)),
-                                                                       _copy(h["msg"]), TimeValidity(0)))
-                resp.append(int(r.result))
-            elif h["op"] == "delete":
-                r = lut.if3.delete_provider_data(DeleteDataProviderReq(h["aid"], ids.get(h["k"], -1), TimestampIts(its_ms(VCLOCK.ms))))
-                resp.append(int(r.result))
-            elif h["op"] == "advance":
-                VCLOCK.advance(h["ms"])
-                resp.append(None)
-        except Exception as e:
-            resp.append("EXC " + type(e).__name__)
-    return lut, resp, ids
+    r = HistoryRunner(backend, t0).run(hist)
+    return r.lut, r.resp, r.ids
 
 
 def _copy(x):
@@ -225,21 +292,35 @@ def _copy(x):
 
 
 def expected_store(hist, t0):
-    """the containers the history leaves behind, in insertion order - from the interface description"""
+    """the containers the history leaves behind, in insertion order - from the interface description: an update
+    replaces the message of a stored object when the new message has the same (known) type; an object whose validity
+    has lapsed (timestamp + validity before the current second) is gone once maintenance has run - explicitly, or inside
+    an addition when at least one second has passed since the LDM was created / since the last such run"""
     now = its_ms(t0)
+    last_gc = now
     store = {}
+
+    def collect():
+        trunc = now // 1000 * 1000
+        for k in [k for k, r in store.items() if r["timeValidity"] * 1000 + r["timestamp"] < trunc]:
+            del store[k]
     for h in hist:
         if h["op"] == "add":
             store[h["k"]] = {"application_id": h["aid"], "timestamp": now + h["dts"],
                              "location": location_dict(h["lat"], h["lon"], h["alt"], h["extra"]),
                              "dataObject": h["msg"], "timeValidity": h["val"]}
+            if now - last_gc >= 1000:
+                collect()
+                last_gc = now
         elif h["op"] == "update":
-            if h["k"] in store and type_of_message(store[h["k"]]["dataObject"]) == type_of_message(h["msg"]):
+            if h["k"] in store and type_of_message(store[h["k"]]["dataObject"]) == type_of_message(h["msg"]) != 0:
                 store[h["k"]] = dict(store[h["k"]], dataObject=h["msg"])
         elif h["op"] == "delete":
             store.pop(h["k"], None)
         elif h["op"] == "advance":
             now += h["ms"]
+        elif h["op"] == "maintain":
+            collect()
     return list(store.values())
 
 
@@ -374,7 +455,8 @@ ORDER_NAMES = ["stationId", "generationDeltaTime", "stationType", "latitude", "t
                "informationQuality", "sequenceNumber", "detectionTime", "application_id", "messageId", "protocolVersion",
                "termination", "sizeClass", "roadType", "lanePosition", "clusterId", "value", "relevanceDistance",
                "altitudeValue", "vehicleRole", "noSuchAttribute", "validityDuration", "embarkationStatus", "radius",
-               "cam.generationDeltaTime", "safeDistanceIndicator"]
+               "cam.generationDeltaTime", "safeDistanceIndicator",
+               "note", "flag", "delta", "label", "inner", "rectangle", "aSemiAxis", "azimuthAngle", "circle"]
 BAD_PATHS = ["", "cam", "cam.", ".cam", "cam..generationDeltaTime", "header.stationId.x", "header.nosuch", "nosuch.path",
              "cam.camParameters.highFrequencyContainer.speed.speedValue", "dataObject.header.stationId", "timeValidity",
              "cam.camParameters.lowFrequencyContainer.vehicleRole", "denm.situation.eventType.ccAndScc.accident2",
@@ -568,93 +650,156 @@ def dec_answers(flat, n):
 # one scenario: a history on both back-ends and a batch of requests
 
 def check_scenario(ctx, scen, label):
+    """scen: history, t0_utc_ms, requests (made after the whole history) and, optionally, mid = [{"at": n, "requests": [...]}]:
+    requests made after the first n operations of the history (audit round)"""
     hist, reqs, t0 = scen["history"], scen["requests"], scen["t0_utc_ms"]
-    store = expected_store(hist, t0)
-    store_json = [cjson(r) for r in store]
-    luts = {}
-    info = {"history": hist, "t0_utc_ms": t0}
+    stages = sorted(scen.get("mid") or [], key=lambda m: m["at"]) + [{"at": len(hist), "requests": reqs, "final": True}]
+    runners = {}
     try:
-        resp = {}
         for be in ("Dictionary", "TinyDB"):
-            luts[be], resp[be], _ = run_history(be, hist, t0)
-        # ---- same history, same store on both back-ends --------------------------------
-        if resp["Dictionary"] != resp["TinyDB"]:
-            i = next(i for i, (a, b) in enumerate(zip(resp["Dictionary"], resp["TinyDB"])) if a != b)
-            ctx.property_failure("backends_differ_history", dict(info, requests=[], op_index=i),
-                                 f"the two back-ends answer operation {i} ({hist[i]['op']}) of the same history differently",
-                                 resp["Dictionary"][i], resp["TinyDB"][i])
-        for be in ("Dictionary", "TinyDB"):
-            got = [cjson(d) for _, d in luts[be].items()]
-            if got != store_json:
-                ctx.property_failure("store_differs_" + be, dict(info, requests=[]),
-                                     f"the {be} back-end does not hold the containers the history leaves behind",
-                                     len(store_json), len(got))
-        ctx.count(len(hist), label + "_history_ops")
-        # ---- requests -----------------------------------------------------------------
-        model = None
-        if ctx.model.available and reqs:
+            runners[be] = HistoryRunner(be, t0)
+        luts = {be: r.lut for be, r in runners.items()}
+        done = 0
+        # the model's answers for every stage, from one driver process
+        answers = [None] * len(stages)
+        if ctx.model.available:
+            todo = [(si, expected_store(hist[:min(st["at"], len(hist))], t0), st["requests"]) for si, st in enumerate(stages) if st["requests"]]
             try:
-                model = dec_answers(ctx.model.call(1, enc_batch(store, reqs)), len(reqs))
+                for (si, _, rq), flat in zip(todo, ctx.model.batch((1, enc_batch(st_, rq)) for _, st_, rq in todo)):
+                    try:
+                        answers[si] = dec_answers(flat, len(rq))
+                    except Exception as e:
+                        ctx.mismatch("model decodes the request batch", {"history": hist[:stages[si]["at"]], "t0_utc_ms": t0}, str(e), None)
             except Exception as e:
-                ctx.mismatch("model decodes the request batch", info, str(e), None)
-        for qi, q in enumerate(reqs):
-            kinds_ok = order_kinds_ok(store, q)
-            want = spec_query(store, q) if kinds_ok else None
-            inp = {"history": hist, "t0_utc_ms": t0, "requests": [q]}
-            got = {}
+                ctx.mismatch("model decodes the request batch", {"history": hist, "t0_utc_ms": t0}, str(e), None)
+        for si, stage in enumerate(stages):
+            at = max(done, min(stage["at"], len(hist)))
             for be in ("Dictionary", "TinyDB"):
-                code, data = impl_request(luts[be], q)
-                ctx.count(1, label + "_" + be)
-                if code == "EXC":
-                    got[be] = ("EXC", data)
-                    if kinds_ok:
-                        ctx.property_failure("query_exception_" + be, inp, f"request raised on the {be} back-end: {data}", want, data)
-                    continue
-                idx = to_indices(store_json, data)
-                got[be] = idx
-                if not kinds_ok:
-                    continue
-                if code != 0:
-                    ctx.property_failure("query_refused_" + be, inp, f"valid request refused with result {code}", 0, code)
-                elif sorted(idx) != sorted(want):
-                    cls = "query_not_exact_" + be
-                    if q["filter"] is None:
-                        cls = "query_type_selection_" + be
-                    ctx.property_failure(cls, inp, f"the {be} back-end does not return exactly the stored objects of the requested "
-                                         f"types for which the filter is true (store positions)", want, idx)
-                elif idx != want:
-                    ctx.property_failure("query_not_ordered_" + be, inp, f"the {be} back-end returns the matching objects in "
-                                         f"another order than requested", want, idx)
-                if model is not None and model[qi] != idx:
-                    ctx.mismatch(f"{be} request_data_objects = LdmFilter.query", inp, model[qi], idx)
-            if kinds_ok and got.get("Dictionary") != got.get("TinyDB"):
-                ctx.property_failure("backends_differ", inp, "the two back-ends answer the same request differently",
-                                     got.get("Dictionary"), got.get("TinyDB"))
-            if kinds_ok:
-                if want:
-                    ctx.nontriv(cjson(q) + str(len(store)) + str(want))
-                ctx.dist["flt_" + ("none" if q["filter"] is None else "2" if q["filter"]["s2"] else "1")] = \
-                    ctx.dist.get("flt_" + ("none" if q["filter"] is None else "2" if q["filter"]["s2"] else "1"), 0) + 1
-                ctx.dist["result_" + ("empty" if not want else "all" if len(want) == len(store) else "some")] = \
-                    ctx.dist.get("result_" + ("empty" if not want else "all" if len(want) == len(store) else "some"), 0) + 1
-                if q["filter"] is not None:
-                    for s in (q["filter"]["s1"], q["filter"]["s2"]):
-                        if s:
-                            ctx.dist["op_" + s["op"]] = ctx.dist.get("op_" + s["op"], 0) + 1
+                VCLOCK.set_ms(t0 + sum(h["ms"] for h in hist[:done] if h["op"] == "advance"))
+                runners[be].run(hist[done:at])
+            done = at
+            prefix = hist[:at]
+            store = expected_store(prefix, t0)
+            store_json = [cjson(r) for r in store]
+            info = {"history": prefix, "t0_utc_ms": t0}
+            if si:          # a replay makes the requests of the earlier stages again (what they left behind may matter)
+                info["mid"] = [{"at": st_["at"], "requests": st_["requests"]} for st_ in stages[:si] if st_["requests"]]
+            resp = {be: r.resp for be, r in runners.items()}
+            # ---- same history, same store on both back-ends --------------------------------
+            if resp["Dictionary"] != resp["TinyDB"]:
+                i = next(i for i, (a, b) in enumerate(zip(resp["Dictionary"], resp["TinyDB"])) if a != b)
+                ctx.property_failure("backends_differ_history", dict(info, requests=[], op_index=i),
+                                     f"the two back-ends answer operation {i} ({hist[i]['op']}) of the same history differently",
+                                     resp["Dictionary"][i], resp["TinyDB"][i])
+            for be in ("Dictionary", "TinyDB"):
+                got = [cjson(d) for _, d in luts[be].items()]
+                if got != store_json:
+                    ctx.property_failure("store_differs_" + be, dict(info, requests=[]),
+                                         f"the {be} back-end does not hold the containers the history leaves behind",
+                                         len(store_json), len(got))
+            if stage.get("final"):
+                ctx.count(len(hist), label + "_history_ops")
+                ctx.dist["history_expired"] = ctx.dist.get("history_expired", 0) + _n_expired(hist, t0)
             else:
-                ctx.dist["order_kinds_mixed_skipped"] = ctx.dist.get("order_kinds_mixed_skipped", 0) + 1
-        if reqs:
-            ctx.sample({"store_size": len(store), "request": reqs[0], "expected_positions": spec_query(store, reqs[0]) if order_kinds_ok(store, reqs[0]) else None})
+                ctx.dist["mid_history_stages"] = ctx.dist.get("mid_history_stages", 0) + 1
+            check_requests(ctx, luts, store, store_json, stage["requests"], info, label, answers[si])
     finally:
-        for l in luts.values():
-            l.close()
+        for r in runners.values():
+            r.lut.close()
 
 
-def gen_scenario(rng, n_add, n_req):
+def _n_expired(hist, t0):
+    """number of objects of a history that lapse and are collected (for the input distribution)"""
+    alive = {h["k"] for h in hist if h["op"] == "add"}
+    for h in hist:
+        if h["op"] == "delete":
+            alive.discard(h["k"])
+    return max(0, len(alive) - len(expected_store(hist, t0)))
+
+
+def check_requests(ctx, luts, store, store_json, reqs, info, label, model=None):
+    """model: the model's answers (store positions) to reqs on this store, or None"""
+    hist, t0 = info["history"], info["t0_utc_ms"]
+    if True:
+        if True:
+            # ---- requests -----------------------------------------------------------------
+            for qi, q in enumerate(reqs):
+                kinds_ok = order_kinds_ok(store, q)
+                want = spec_query(store, q) if kinds_ok else None
+                inp = {"history": hist, "t0_utc_ms": t0, "requests": [q]}
+                if info.get("mid"):
+                    # earlier stages of the scenario; of a long stage only the requests equal to this one
+                    inp["mid"] = [m if len(m["requests"]) <= 60 else dict(m, requests=[r for r in m["requests"] if r == q])
+                                  for m in info["mid"]]
+                got = {}
+                for be in ("Dictionary", "TinyDB"):
+                    code, data = impl_request(luts[be], q)
+                    ctx.count(1, label + "_" + be)
+                    if code == "EXC":
+                        got[be] = ("EXC", data)
+                        if kinds_ok:
+                            ctx.property_failure("query_exception_" + be, inp, f"request raised on the {be} back-end: {data}", want, data)
+                        continue
+                    idx = to_indices(store_json, data)
+                    got[be] = idx
+                    if not kinds_ok:
+                        continue
+                    if code != 0:
+                        ctx.property_failure("query_refused_" + be, inp, f"valid request refused with result {code}", 0, code)
+                    elif sorted(idx) != sorted(want):
+                        cls = "query_not_exact_" + be
+                        if q["filter"] is None:
+                            cls = "query_type_selection_" + be
+                        ctx.property_failure(cls, inp, f"the {be} back-end does not return exactly the stored objects of the requested "
+                                             f"types for which the filter is true (store positions)", want, idx)
+                    elif idx != want:
+                        ctx.property_failure("query_not_ordered_" + be, inp, f"the {be} back-end returns the matching objects in "
+                                             f"another order than requested", want, idx)
+                    if model is not None and model[qi] != idx:
+                        ctx.mismatch(f"{be} request_data_objects = LdmFilter.query", inp, model[qi], idx)
+                if kinds_ok and got.get("Dictionary") != got.get("TinyDB"):
+                    ctx.property_failure("backends_differ", inp, "the two back-ends answer the same request differently",
+                                         got.get("Dictionary"), got.get("TinyDB"))
+                if kinds_ok:
+                    if want:
+                        ctx.nontriv(cjson(q) + str(len(store)) + str(want))
+                    ctx.dist["flt_" + ("none" if q["filter"] is None else "2" if q["filter"]["s2"] else "1")] = \
+                        ctx.dist.get("flt_" + ("none" if q["filter"] is None else "2" if q["filter"]["s2"] else "1"), 0) + 1
+                    ctx.dist["result_" + ("empty" if not want else "all" if len(want) == len(store) else "some")] = \
+                        ctx.dist.get("result_" + ("empty" if not want else "all" if len(want) == len(store) else "some"), 0) + 1
+                    if q["filter"] is not None:
+                        for s in (q["filter"]["s1"], q["filter"]["s2"]):
+                            if s:
+                                ctx.dist["op_" + s["op"]] = ctx.dist.get("op_" + s["op"], 0) + 1
+                else:
+                    ctx.dist["order_kinds_mixed_skipped"] = ctx.dist.get("order_kinds_mixed_skipped", 0) + 1
+            if reqs:
+                ctx.sample({"store_size": len(store), "request": reqs[0], "expected_positions": spec_query(store, reqs[0]) if order_kinds_ok(store, reqs[0]) else None})
+
+
+def gen_scenario(rng, n_add, n_req, style="plain"):
     t0 = T0_UTC_MS + rng.randrange(1000)
-    hist = gen_history(rng, n_add)
+    hist = gen_history(rng, n_add, style)
     store = expected_store(hist, t0)
-    return {"history": hist, "t0_utc_ms": t0, "requests": [gen_request(rng, store) for _ in range(n_req)]}
+    scen = {"history": hist, "t0_utc_ms": t0, "requests": [gen_request(rng, store) for _ in range(n_req)]}
+    if style == "audit" and len(hist) > 3:
+        # requests between the operations of the history: what an earlier request returned must not leak into a later one
+        cuts = sorted(set(rng.randrange(1, len(hist)) for _ in range(rng.choice((1, 1, 2)))))
+        scen["mid"] = []
+        for at in cuts:
+            st = expected_store(hist[:at], t0)
+            rq = [gen_request(rng, st) for _ in range(max(3, n_req // 6))]
+            # repeat some of the final requests early (same request before and after later operations)
+            scen["mid"].append({"at": at, "requests": rq + scen["requests"][:max(3, n_req // 6)]})
+        # the same requests immediately before and immediately after an update (nothing added or removed in between)
+        upd = [i for i, h in enumerate(hist) if h["op"] == "update" and h["k"] < 900]
+        if upd:
+            u = rng.choice(upd)
+            st = expected_store(hist[:u + 1], t0)
+            rq = [gen_request(rng, st) for _ in range(max(4, n_req // 5))]
+            scen["mid"] = [m for m in scen["mid"] if m["at"] not in (u, u + 1)]
+            scen["mid"] += [{"at": u, "requests": rq}, {"at": u + 1, "requests": rq}]
+    return scen
 
 
 def boundary_scenarios(rng):
@@ -692,6 +837,76 @@ def boundary_scenarios(rng):
     return [{"history": hist, "t0_utc_ms": t0, "requests": reqs}]
 
 
+def boundary_scenarios_audit():
+    """audit round: a fixed store with null / empty-string / boolean / negative / empty-container values, a message whose
+    header comes last, an untyped message and one message of each of the remaining types, locations with rectangle and
+    ellipse; objects that lapse and are collected explicitly and inside an addition; every operator against reference
+    values of every kind on these attributes; ordering by them; requests between the operations"""
+    from .ldm_common import type_names
+    t0 = T0_UTC_MS
+    ex = {"smc": 1, "smo": 2, "smic": 3, "ac": 0, "radius": 10, "rd": 1, "td": 0}
+    bodies = [{"note": None, "flag": False, "delta": -1, "items": [], "box": {}},
+              {"note": "", "flag": True, "delta": 0, "items": [""], "box": {"inner": 0}},
+              {"note": "abc", "flag": None, "delta": 3, "items": [None, 0], "box": {"inner": ""}},
+              {"note": "b", "delta": -5, "items": [False, "abc"], "box": {"inner": None}},
+              {"flag": 0, "note": "None", "box": {"inner": -2}},
+              {"flag": 1, "note": "", "delta": 0}]
+    hist = []
+    k = 0
+
+    def add(msg, val=100000, extra=None, dts=0):
+        nonlocal k
+        hist.append({"op": "add", "k": k, "aid": 2, "dts": dts, "lat": 413800000 + k * 100000, "lon": 21100000, "alt": 0,
+                     "extra": dict(ex, **(extra or {})), "val": val, "msg": msg})
+        k += 1
+    for i, b in enumerate(bodies):
+        msg = {"header": {"protocolVersion": 2, "messageId": 3, "stationId": 2000 + i}, "poi": dict(b, generationDeltaTime=i)}
+        if i == 3:
+            msg = {"poi": msg["poi"], "header": msg["header"]}
+        add(msg, extra=SHAPES[3 + i % 3])
+    add({"header": {"protocolVersion": 2, "messageId": 0, "stationId": 2050}, "unknownMessage": {"note": "abc", "delta": 1}})
+    for typ in range(1, 22):
+        add({"header": {"protocolVersion": 2, "messageId": typ, "stationId": 2100 + typ},
+             type_names()[typ]: {"generationDeltaTime": typ, "note": "t%d" % typ, "delta": typ - 10}})
+    mid_at = len(hist)
+    # lapse and collection: explicitly, and inside an addition one second after the previous run
+    add({"header": {"protocolVersion": 2, "messageId": 3, "stationId": 2200}, "poi": {"note": "short", "delta": 7}}, val=1)
+    add({"header": {"protocolVersion": 2, "messageId": 3, "stationId": 2201}, "poi": {"note": "zero", "delta": 8}}, val=0)
+    add({"header": {"protocolVersion": 2, "messageId": 3, "stationId": 2202}, "poi": {"note": "same-stamp", "delta": 9}}, val=600)
+    hist.append({"op": "advance", "ms": 1000})
+    mid2 = len(hist)
+    hist.append({"op": "maintain"})
+    mid3 = len(hist)
+    hist.append({"op": "advance", "ms": 1000})
+    add({"header": {"protocolVersion": 2, "messageId": 3, "stationId": 2203}, "poi": {"note": "late", "delta": 10}}, val=5)
+    mid4 = len(hist)
+    hist.append({"op": "update", "k": 1, "aid": 2, "msg": {"header": {"protocolVersion": 2, "messageId": 3, "stationId": 2001},
+                                                         "poi": {"note": "updated", "flag": False}}})
+    mid5 = len(hist)
+    hist.append({"op": "update", "k": 3, "aid": 2, "msg": {"poi": {"note": "header last", "delta": -7},
+                                                         "header": {"protocolVersion": 2, "messageId": 3, "stationId": 2003}}})
+    hist.append({"op": "delete", "k": 0, "aid": 2})
+    hist.append({"op": "delete", "k": 777, "aid": 2})
+    hist.append({"op": "update", "k": 778, "aid": 2, "msg": hist[0]["msg"]})
+    reqs = []
+    refs = ("", "abc", "b", 0, 1, -1, False, True, "None", "0")
+    for attr in ("note", "flag", "delta", "items", "box", "box.inner"):
+        for op in OPS:
+            for ref in refs:
+                reqs.append({"types": [3], "filter": {"s1": {"path": "poi." + attr, "op": op, "ref": ref}, "lop": None, "s2": None}, "orders": None})
+    for names in (("note",), ("flag",), ("delta",), ("inner",), ("note", "delta"), ("flag", "note"), ("azimuthAngle", "delta"), ("aSemiAxis",)):
+        for dirs in range(2 ** len(names)):
+            for types in ([3], list(range(1, 22))):
+                reqs.append({"types": types, "filter": None, "orders": [{"name": n, "desc": bool(dirs >> i & 1)} for i, n in enumerate(names)]})
+    for t in range(1, 22):
+        reqs.append({"types": [t], "filter": None, "orders": None})
+        reqs.append({"types": [t], "filter": {"s1": {"path": "header.messageId", "op": "==", "ref": t}, "lop": None, "s2": None}, "orders": None})
+    few = reqs[::7]
+    return [{"history": hist, "t0_utc_ms": t0, "requests": reqs,
+             "mid": [{"at": mid_at, "requests": reqs}, {"at": mid2, "requests": few}, {"at": mid3, "requests": few},
+                     {"at": mid4, "requests": reqs[::3]}, {"at": mid5, "requests": reqs[::3]}]}]
+
+
 def check_dec_str(ctx):
     """str(needle) of the like operator: the model's decimal conversion against Python's"""
     if not ctx.model.available:
@@ -709,7 +924,11 @@ def run(ctx):
                 "without optional containers) executed on a Factory-built LDM with the Dictionary and with the TinyDB back-end; "
                 "requests with filters of one or two statements over every dotted path occurring in the stored messages (plus "
                 "non-existing, malformed and into-CHOICE paths), all eight operators, reference values taken from the stored "
-                "values, off-by-one, of other type, all type selections, 0-3 ordering attributes in both directions; each back-end "
+                "values, off-by-one, of other type, all type selections, 0-3 ordering attributes in both directions; style 'audit': "
+                "messages of all 21 types and untyped ones with null / empty-string / boolean / negative / empty-container values and "
+                "the header last, locations with rectangle / ellipse / no circle, validity 0-5 s with clock advances, explicit and "
+                "reactive maintenance (objects lapse on both back-ends), operations on unknown identifiers, requests also between "
+                "the operations of a history; each back-end "
                 "is compared with the specification oracle, with the model and with the other back-end; evaluations = requests "
                 "executed per back-end + history operations; non-trivial = request with a non-empty expected result, distinct by "
                 "(request, store size, result)")
@@ -723,9 +942,17 @@ def run(ctx):
     check_dec_str(ctx)
     for s in boundary_scenarios(rng):
         check_scenario(ctx, s, "boundary")
+    for s in boundary_scenarios_audit():
+        check_scenario(ctx, s, "boundary_audit")
     n_scen = 120 if ctx.tier == "quick" else 1500
     for _ in range(n_scen):
         check_scenario(ctx, gen_scenario(rng, rng.choice((1, 3, 6, 10, 15, 25)), 60), "seeded")
+    n_audit = 36 if ctx.tier == "quick" else 600
+    for _ in range(n_audit):
+        check_scenario(ctx, gen_scenario(rng, rng.choice((2, 4, 8, 12, 20, 30)), 30 if ctx.tier == "quick" else 40, "audit"), "seeded_audit")
+    if ctx.tier != "quick":
+        for _ in range(30):          # large stores
+            check_scenario(ctx, gen_scenario(rng, rng.choice((60, 120, 200)), 40, "audit"), "seeded_audit_large")
     ctx.exhaustive = False
 
 
@@ -735,7 +962,8 @@ def replay(ctx, data):
     print(json.dumps(f, default=str)[:3000])
     ctx.model = common.Model(MODEL_NAME)
     inp = f["input"]
-    check_scenario(ctx, {"history": inp["history"], "t0_utc_ms": inp["t0_utc_ms"], "requests": inp.get("requests", [])}, "replay")
+    check_scenario(ctx, {"history": inp["history"], "t0_utc_ms": inp["t0_utc_ms"], "requests": inp.get("requests", []),
+                         "mid": inp.get("mid")}, "replay")
     if f.get("kind") == "property_failure":
         hits = [r for r in ctx.failures + list(ctx.known_hits.values()) if r["class"] == f["class"]]
     else:
